@@ -6,16 +6,16 @@
 (* names a ndjson file of event indices consumed without judgement (used   *)
 (* by the driver to keep judging after a rejected / known-finding event).  *)
 (***************************************************************************)
-EXTENDS JField, JScalar, Json, IOUtils, TLC
+EXTENDS JField, JScalar, JStream, Json, IOUtils, TLC
 
 Rec  == ndJsonDeserialize(IOEnv.TRACE)
 SkipSeq == ndJsonDeserialize(IOEnv.SKIP)
 Skip == {SkipSeq[i] : i \in 1..Len(SkipSeq)}
 
-VARIABLES l, cm
-vars == <<l, cm>>
+VARIABLES l, cm, st
+vars == <<l, cm, st>>
 
-Init == l = 1 /\ cm = [G1 |-> InitRegs, G2 |-> InitRegs]
+Init == l = 1 /\ cm = [G1 |-> InitRegs, G2 |-> InitRegs] /\ st = InitStream
 
 Stateless(e) ==
   CASE e.op = "fp"   -> JudgeFp(e)
@@ -27,6 +27,10 @@ Stateless(e) ==
     [] e.op = "pipwin" -> JudgePipwin(e)
     [] e.op = "msm"  -> JudgeMsm(e)
     [] e.op = "msml" -> JudgeMsml(e)
+    [] e.op = "decode" -> JudgeDecode(e)
+    [] e.op = "encode" -> JudgeEncode(e)
+    [] e.op = "insub" -> JudgeInsub(e)
+    [] e.op = "prod" -> \A i \in 1..Len(e.out) : InSubJ(e.g, e.out[i])
 
 IsStateful(e) == e.op \in {"cm"}
 
@@ -34,13 +38,18 @@ Next ==
   /\ l <= Len(Rec)
   /\ l' = l + 1
   /\ LET e == Rec[l] IN
-     IF l \in Skip THEN UNCHANGED cm
+     IF l \in Skip THEN UNCHANGED <<cm, st>>
      ELSE IF e.op = "cm" THEN
         /\ ~e.panic
-        /\ LET r == CmStep(e.g, cm[e.g], e) IN r[1] /\ cm' = [cm EXCEPT ![e.g] = r[2]]
+        /\ LET r == CmStep(e.g, cm[e.g], e) IN r[1] = TRUE /\ cm' = [cm EXCEPT ![e.g] = r[2]]
+        /\ UNCHANGED st
+     ELSE IF e.op = "st" THEN
+        /\ ~e.panic
+        /\ LET r == StStep(st, e) IN r[1] = TRUE /\ st' = r[2]
+        /\ UNCHANGED cm
      ELSE /\ ~e.panic
-          /\ Stateless(e)
-          /\ UNCHANGED cm
+          /\ Stateless(e) = TRUE      \* "= TRUE": evaluate the judge as a value, not as an action
+          /\ UNCHANGED <<cm, st>>
 
 Spec == Init /\ [][Next]_vars
 
